@@ -10,6 +10,25 @@ TB = ("Lean 4.33 kernel + Mathlib v4.33; axioms per theorem within {propext, Cla
       "source by the correspondence suites named in the evidence file (harness/%s.py). ")
 
 CLAIMED = {
+ 'C01': dict(
+   text="Proof (Lean 4) about the control model SolveM.solve of solve()/multigrid() level-0 "
+        "loop/krylov()/_terminate(): for EVERY sequence of residual norms and Krylov events (i.e. "
+        "whatever the numerics does): exit 0 <=> message CONVERGED on all paths; plain multigrid "
+        "success implies the reported abs_error is the residual norm of the last field and is "
+        "below tol*|s| (IEEE comparison); a finished run above the tolerance is reported as "
+        "DIVERGED/STAGNATED/MAX-ITERATION with exit 1; the loop stops within maxit cycles; "
+        "already-good supplied field => nothing run; zero source => zero field, error 0; Krylov: "
+        "success <=> SciPy info 0 without abort, abs_error is the residual of the returned field, "
+        "an abort is always a failure. Tie to code: recorded residual norms / SciPy events of real "
+        "solves over the configuration product drive the model; exit, message, it_mg, it_ssl, "
+        "abs_error must agree. Numeric half (partial, monitored not proved): residual of the "
+        "returned/in-place field recomputed with an independent sparse FIT assembly (cross-checked "
+        "against the Lean spec), PEC, dtype, in-place semantics.",
+   design='§4 C01',
+   note=TB % 'c01' + "Modelled not verified: what a cycle / a Krylov step does to the field "
+        "(oracle), SciPy's solvers (event model), floating-point norm. Known finding: Krylov with "
+        "maxit=0 reports success (KNOWN_FINDINGS.txt).",
+   technique='Lean 4 invariant over the cycle loop / event fold + trace correspondence; independent residual oracle'),
  'C02': dict(
    text="Proof (Lean 4, over an arbitrary field K, all grid sizes/widths/coefficients/fields): the "
         "model Emg.amat of core.amat_x equals on every interior edge the assembled operator "
